@@ -40,7 +40,7 @@ ASSUMPTIONS = [
 MINIMUMS = {
     'quick': {'evaluations': 1500, 'op:setslice': 1500, 'op:delslice': 1500, 'op:delidx': 1500,
               'op:setidx': 1500, 'op:setattr': 1500, 'op:delattr': 1000, 'accepted:varargs-slice-change': 200,
-              'rejected': 1000, 'sweep_ops': 2000},
+              'rejected': 1000, 'sweep_ops': 2000, 'by_name_rejection_probes': 40},
     'thorough': {'evaluations': 1000},
 }
 
@@ -374,6 +374,55 @@ def initial(rng, fn, cnt):
   return cfg, m, (len(args), sorted(kwargs))
 
 
+def probe_by_name_rejections(rng, acc):
+  """Positional-only parameters addressed by name are rejected (and nothing changes) also when an
+  argument is already stored under that very name - a **kwargs entry that happens to be called
+  like a positional-only parameter, or a value kept by update_callable when a parameter became
+  positional-only."""
+  from vt import sigs
+  which = rng.choice(['kwargs-entry-of-that-name', 'kept-by-update_callable'])
+  try:
+    if which == 'kwargs-entry-of-that-name':
+      cands = [f for f in sigs.ALL
+               if any(q.kind == q.POSITIONAL_ONLY for q in inspect.signature(f).parameters.values())
+               and any(q.kind == q.VAR_KEYWORD for q in inspect.signature(f).parameters.values())]
+      fn = rng.choice(cands)
+      ps = list(inspect.signature(fn).parameters.values())
+      po = [q for q in ps if q.kind == q.POSITIONAL_ONLY]
+      name = rng.choice(po).name
+      cfg = fdl.Config(fn, *[Sentinel(k) for k in range(len(po))], **{name: Sentinel(99)})
+    else:
+      cfg = fdl.Config(sigs.g_abc, a=Sentinel(1), b=Sentinel(2), c=Sentinel(3))
+      fdl.update_callable(cfg, sigs.g_ab_c_va)      # a, b are positional-only now
+      fn, name = sigs.g_ab_c_va, rng.choice(['a', 'b'])
+  except Exception as e:  # pylint: disable=broad-except
+    acc.obs('by_name_probe_setup_failed:' + type(e).__name__)
+    return
+  acc.obs('by_name_rejection_probes')
+  # (deleting the entry under the key it is stored under is how such a value is removed: only
+  # assignment by name is judged)
+  for op in ('setattr',):
+    before = (dict(cfg.__arguments__), {k: set(v) for k, v in cfg.__argument_tags__.items()})
+    try:
+      if op == 'setattr':
+        setattr(cfg, name, Sentinel(7))
+      else:
+        delattr(cfg, name)
+      accepted = True
+    except (AttributeError, TypeError, ValueError, KeyError):
+      accepted = False
+    after = (dict(cfg.__arguments__), {k: set(v) for k, v in cfg.__argument_tags__.items()})
+    w = {'fn': describe_fn(fn), 'name': name, 'case': which, 'arguments': safe_repr(before[0])}
+    if accepted:
+      acc.violation(f'invalid-edit-accepted:{op}:positional-only-by-name:{which}',
+                    f'{op} of positional-only parameter {name!r} by name was accepted', w)
+      return
+    if before[0].keys() != after[0].keys() or any(before[0][k] is not after[0][k] for k in before[0]):
+      acc.violation(f'state-changed-after-rejection:{op}:positional-only-by-name:{which}',
+                    'arguments differ after the rejected edit', w)
+      return
+
+
 def run_history(rng, acc, fns):
   fn = rng.choice(fns) if rng.random() < 0.8 else rng.choice(EXTRA_FNS)
   cnt = itertools.count(100)
@@ -495,6 +544,8 @@ def run_shard(spec, seed, acc):
   fns = all_fns()
   for _, rng in acc.cases(spec):
     if spec['kind'] == 'hist':
+      if rng.random() < 0.05:
+        probe_by_name_rejections(rng, acc)
       run_history(rng, acc, fns)
     else:
       run_sweep(rng, acc, fns)
